@@ -173,6 +173,7 @@ func ruleR07a(c *Ctx) {
 		}
 		var takeCall *ssa.Call
 		pr := &PathRule{
+			Inline: m.inlineReservationHelpers(c, "referenceIks"),
 			DeferID: func(d *ssa.Defer) int {
 				if k, _, ok := m.releaseKind(c, d); ok && k == "referenceIks" {
 					return 0
@@ -249,7 +250,7 @@ func ruleR07a(c *Ctx) {
 				return s, true
 			},
 			Exit: func(pc *PathCtx, s uint64, ins ssa.Instruction) {
-				if _, isRet := ins.(*ssa.Return); isRet && s&rvTAKEN != 0 {
+				if _, isRet := ins.(*ssa.Return); isRet && s&rvTAKEN != 0 && pc.Fn() == fn {
 					obl.violate(kRel, ins.Pos(), "a path returns while still holding the idempotency-key reservation: the key can never be used again", pc.Trail())
 				}
 			},
@@ -770,7 +771,15 @@ func (m *cmdModel) reservationKey(c *Ctx, fn *ssa.Function, kind string) ssa.Val
 	return key
 }
 
-// inlineReservationHelpers: package functions that take or release reservations but do not themselves hand off.
+// reachesStoreLookup: does fn (through static callees of the package) read a transaction or a log from the store?
+func (m *cmdModel) reachesStoreLookup(c *Ctx, fn *ssa.Function) bool {
+	return c.reachesStatic(fn, func(ci ssa.CallInstruction) bool {
+		return ifaceMethodOf(ci) != nil && (isCallTo(ci, m.getTxByRef) || isCallTo(ci, m.readLogIK) || isCallTo(ci, m.getTx))
+	}, map[*ssa.Function]int{}, 0)
+}
+
+// inlineReservationHelpers: package functions that take or release reservations, or look the store up, but do not
+// themselves hand off.
 func (m *cmdModel) inlineReservationHelpers(c *Ctx, kind string) func(ci ssa.CallInstruction) []*ssa.Function {
 	return func(ci ssa.CallInstruction) []*ssa.Function {
 		var out []*ssa.Function
@@ -778,7 +787,7 @@ func (m *cmdModel) inlineReservationHelpers(c *Ctx, kind string) func(ci ssa.Cal
 			if fnPkgPath(f) != pkgCommand || f == m.take || f == m.release || m.appenders[f] || m.persisters[f] {
 				continue
 			}
-			if m.reachesTake(c, f, kind) {
+			if m.reachesTake(c, f, kind) || m.reachesStoreLookup(c, f) {
 				out = append(out, f)
 			}
 		}
@@ -858,7 +867,7 @@ func ruleR11a(c *Ctx) {
 						if s&rvTAKEN == 0 {
 							obl.violate(kOrder, x.Pos(), "the store is searched for the reference on a path that does not hold the reservation of the reference", pc.Trail())
 						}
-						if len(x.Call.Args) > 1 && !sameSource(x.Call.Args[1], keyVal) {
+						if len(x.Call.Args) > 1 && !sameSource(pc.Resolve(x.Call.Args[1]), keyVal) {
 							obl.violate(kOrder, x.Pos(), "the store lookup is not made with the reference that was reserved", pc.Trail())
 						}
 						return s | rvLOOKED
@@ -1023,7 +1032,7 @@ func ruleR10ab(c *Ctx) {
 				if s&rvTAKEN == 0 {
 					obl.violate(kGuard, call.Pos(), "the transaction is read from the store on a path that does not hold the in-flight guard", pc.Trail())
 				}
-				if len(call.Call.Args) > 1 && !sameSource(call.Call.Args[1], keyVal) {
+				if len(call.Call.Args) > 1 && !sameSource(pc.Resolve(call.Call.Args[1]), keyVal) {
 					obl.violate(kGuard, call.Pos(), "the transaction that is read is not the one whose id is guarded", pc.Trail())
 				}
 				return s | rvLOOKED
